@@ -231,7 +231,7 @@ OWN_SRC = ('class C(B):\n    """Doc\n    two."""\n    x = [a,  # c\n         (b)
            '        else:\n            y = f"{p!r:>4}"\n    @d\n    async def n(self): await z\n')
 
 
-def p3_own_src(k: int):
+def p3_own_src(k: int, order: int):
     with pc.untraced():
         root = FST(OWN_SRC, 'exec')
         pc.reset_globals()
@@ -245,7 +245,27 @@ def p3_own_src(k: int):
             in_fstr = True
         p = p.parent
     assume(not in_fstr)         # documented: pieces of f-strings give unparsable own source
-    own = node.f.own_src()
+    assume(0 <= order <= 5)
+    perm = [(None, False, True), (None, True, False), (False, None, True), (False, True, None), (True, None, False), (True, False, None)][pc.pin(order, 0, 5)]
+    answers = {}
+    for dv in perm:             # the docstr variants of own_src() are cached per node: asked in every order
+        answers[dv] = node.f.own_src() if dv is None else node.f.own_src(docstr=dv)
+    with pc.untraced():
+        fresh_nodes = [n for n in ast.walk(FST(OWN_SRC, 'exec').a) if isinstance(n, (ast.stmt, ast.expr)) and not isinstance(n, ast.Slice)]
+        for dv in (None, False, True):
+            fn_ = [n for n in ast.walk(FST(OWN_SRC, 'exec').a) if isinstance(n, (ast.stmt, ast.expr)) and not isinstance(n, ast.Slice)][nodes.index(node)].f
+            exp_ = fn_.own_src() if dv is None else fn_.own_src(docstr=dv)
+            check(pc.R(answers[dv]) == exp_, 'own_src.answer_depends_on_which_docstr_variant_was_asked_first', (type(node).__name__, dv, perm))
+        # docstr=False leaves string statements alone: that variant must parse back to the node EXACTLY
+        exact = pc.R(answers[False])
+        try:
+            te = ast.parse(exact).body[0] if isinstance(node, ast.stmt) else ast.parse('(' + exact + '\n)', mode='eval').body
+            import re as _re
+            unctx = lambda d_: _re.sub(r"ctx=(Store|Del)\(\)", 'ctx=Load()', d_)   # noqa: E731
+            check(unctx(ast.dump(te)) == unctx(ast.dump(node)) or isinstance(node, ast.If), 'own_src.docstr_false_variant_does_not_parse_back_to_the_node', (type(node).__name__, exact))
+        except (SyntaxError, IndexError):
+            pass
+    own = answers[None]
     with pc.untraced():
         own = pc.R(own)
         try:
